@@ -58,11 +58,19 @@ impl Semaphore {
     /// This method will block until the internal count of the semaphore is at
     /// least 1.
     pub fn acquire(&self) {
+        #[cfg(fclones_verif)]
+        self.verif_point("AcqEnter", None);
         let mut count = self.lock.lock().unwrap();
         while *count <= 0 {
+            #[cfg(fclones_verif)]
+            self.verif_point("AcqSleep", Some(*count));
             count = self.cvar.wait(count).unwrap();
+            #[cfg(fclones_verif)]
+            self.verif_point("AcqWake", Some(*count));
         }
         *count -= 1;
+        #[cfg(fclones_verif)]
+        self.verif_point("AcqDone", Some(*count));
     }
 
     /// Release a resource from this semaphore.
@@ -70,8 +78,34 @@ impl Semaphore {
     /// This will increment the number of resources in this semaphore by 1 and
     /// will notify any pending waiters in `acquire` or `access` if necessary.
     pub fn release(&self) {
+        #[cfg(fclones_verif)]
+        self.verif_point("RelStart", None);
         *self.lock.lock().unwrap() += 1;
+        #[cfg(fclones_verif)]
+        self.verif_point("RelMid", None);
         self.cvar.notify_one();
+        #[cfg(fclones_verif)]
+        self.verif_point("RelEnd", None);
+    }
+
+    /// Verification hook: emits a semaphore event (see `crate::verif`). The events
+    /// `AcqSleep`, `AcqWake` and `AcqDone` are emitted while the mutex is held and carry the count.
+    #[cfg(fclones_verif)]
+    fn verif_point(&self, ev: &str, count: Option<isize>) {
+        if crate::verif::enabled() {
+            let id = self as *const Semaphore as usize;
+            match count {
+                Some(c) => crate::verif::emit(ev, &format!("\"sem\":{id},\"count\":{c}")),
+                None => crate::verif::emit(ev, &format!("\"sem\":{id}")),
+            }
+        }
+    }
+
+    /// Verification hook: wakes up all waiters without changing the count
+    /// (what a spurious wake-up of every waiter would do).
+    #[cfg(fclones_verif)]
+    pub fn verif_spurious_wakeup(&self) {
+        self.cvar.notify_all();
     }
 
     /// Acquires a resource of this semaphore, returning an RAII guard to
